@@ -324,10 +324,12 @@ def gen_specs(tier, seed):
         specs.append(Spec('struct', None, [dict(kind='unit', vname=None, nf=None, fields=[])]))
         specs.append(Spec('enum', None, [dict(kind='named', vname=None, nf=None, fields=['p']), dict(kind='tuple', vname=None, nf=None, fields=['p', 'p']), dict(kind='unit', vname=None, nf=None, fields=[])]))
     else:
-        specs += ss[::5]
+        specs += ss[::9]
         n = 0
         for tname in (None, True, 'En'):
             for i, v in enumerate(vo):
+                if (i + (0 if tname is None else 1 if tname is True else 2)) % 3 != 0:
+                    continue      # every variant option once, under one of the three enum-name settings in rotation
                 vs = [dict(vo[(i * 7 + 1) % len(vo)]), dict(vo[(i * 11 + 5) % len(vo)])]
                 vs.insert(i % 3, dict(v))
                 if (i + n) % 2:
